@@ -39,7 +39,56 @@ def build(concepts, case):
         twin_prelude(concepts, case, ctx, twin)
     if case.get('via'):
         ctx = via(concepts, ctx, case)
+    first_reads(concepts, ctx, case)
     return ctx
+
+
+def first_reads(concepts, ctx, case):
+    """History before the driver asks anything: for two contexts in three a few cheap public reads
+    that do not involve the lattice (statistics, fingerprints, printing, comparison, exports, one
+    derivation, one generator step) are made on the new context first, in an order that depends on the
+    table only.  Whatever such a read leaves behind on the context must not change what the judged calls
+    return later (and the reads themselves are judged by whatever monitors are attached).  Never raises."""
+    import zlib
+    try:
+        key = zlib.crc32(repr(('first-reads', len(case['objects']), len(case['properties']), list(case['objects'][:3]),
+                               list(case['properties'][:3]), list(case['rows'][:8]), case.get('via'))).encode())
+    except Exception:
+        return
+    if key % 3 == 0:
+        COL.counters['contexts_asked_cold'] += 1
+        return
+    rng = random.Random(key)
+    try:
+        n, m = len(ctx.objects), len(ctx.properties)
+    except Exception:
+        return
+    small = n * m <= 2500
+    alg = concepts.algorithms
+    reads = [lambda: ctx.fill_ratio, lambda: ctx.shape, lambda: (ctx.objects, ctx.properties),
+             lambda: ctx.fill_ratio, lambda: ctx == ctx, lambda: ctx != ctx]
+    if small:
+        reads += [lambda: ctx.crc32(), lambda: str(ctx), lambda: repr(ctx), lambda: ctx.bools,
+                  lambda: ctx.tostring(rng.choice(['table', 'cxt', 'csv'])), lambda: ctx.definition(),
+                  lambda: ctx.todict(ignore_lattice=True), lambda: ctx == ctx.copy(),
+                  lambda: ctx.intension(ctx.objects[:rng.randint(0, 2)]),
+                  lambda: ctx.extension(ctx.properties[-rng.randint(0, 2):]),
+                  lambda: ctx.neighbors(ctx.objects[:1]), lambda: ctx[ctx.properties[:1]],
+                  lambda: ctx.relations(), lambda: next(alg.fcbo_dual(ctx), None),
+                  lambda: next(alg.fast_generate_from(ctx), None), lambda: next(alg.iterconcepts(ctx), None),
+                  lambda: __import__('pickle').dumps(ctx), lambda: __import__('copy').copy(ctx)]
+    had = 'lattice' in vars(ctx)
+    for fn in rng.sample(reads, rng.randint(1, 4)):
+        try:
+            fn()
+        except (core.CaseTimeout, core.CaseTooLarge):
+            raise
+        except Exception:
+            COL.counters['first_reads_raised'] += 1
+        COL.counters['first_reads'] += 1
+    if not had and 'lattice' in vars(ctx):
+        COL.counters['first_reads_built_the_lattice'] += 1
+    COL.counters['contexts_read_before_they_are_asked'] += 1
 
 
 SubContext = None        # module attribute so that pickle finds the class by name (same process only)
@@ -776,14 +825,20 @@ def read_iterable(args, kwargs, pos, name):
     return list(arg), args, kwargs
 
 
-def recording(gen_obj, judge, where):
+def recording(gen_obj, judge, where, limit=None):
     """Iterator proxy: yields from ``gen_obj``; ``judge(items, complete, exc)`` runs
-    as monitor code when the run ends (exhausted, abandoned or raised)."""
+    as monitor code when the run ends (exhausted, abandoned or raised).
+
+    ``limit``: optional callable giving the number of items a correct run can yield at most (None if
+    unknown).  A run that goes beyond it is stopped there and judged as an abandoned run (more items than
+    distinct correct ones exist, so a repeat or a wrong item is among them): a generator that has lost its
+    way must not eat the memory and the CPU budget of the shard before the verdict is out."""
     def proxy():
         items = []
         complete = False
         exc = None
         thrown_in = None
+        bound = None if limit is None else -1       # -1: not asked yet
         it = iter(gen_obj)
         try:
             while True:
@@ -793,6 +848,23 @@ def recording(gen_obj, judge, where):
                     complete = True
                     break
                 items.append(x)
+                if bound is not None and len(items) > 16:
+                    if bound == -1:
+                        COL.depth += 1
+                        try:
+                            bound = limit()
+                        except (core.CaseTimeout, GeneratorExit):
+                            raise
+                        except BaseException:
+                            bound = None
+                        finally:
+                            COL.depth -= 1
+                    if bound is not None and len(items) > bound:
+                        COL.counters['runaway_generators_stopped_at_the_number_of_possible_items'] += 1
+                        close = getattr(it, 'close', None)
+                        if close is not None:
+                            close()
+                        break
                 try:
                     yield x
                 except (GeneratorExit, core.CaseTimeout):
